@@ -88,7 +88,7 @@ def _protocol(kinds, maxtasks, syn, silence, consumed, mem, want):
                 return fail('C02:KeyboardInterrupt-raised-by-the-task-not-reported-as-its-error')
             if kind == 6 and not (succ is False and val.type is H.NeedsTwo):
                 return fail('C12:exception-not-reported-on-its-job')
-            if kind == 3 and not (succ is False and val.type is bp.MaybeEncodingError):
+            if kind in (3, 7) and not (succ is False and val.type is bp.MaybeEncodingError):
                 return fail('C12:unserialisable-result-not-reported-as-encoding-error')
     # how the loop ended
     stopped_by_mem = False
@@ -291,7 +291,8 @@ def h_unpicklable(code: int) -> bool:
     try:
         nd = NDCode(code)
         pos = nd.draw(0, 6)
-        kinds = [3 if (pos + 1) & (1 << j) else 0 for j in range(3)]      # every non-empty set of positions
+        shown = nd.draw(0, 1)            # the value can / cannot even be repr()ed
+        kinds = [(3, 7)[shown] if (pos + 1) & (1 << j) else 0 for j in range(3)]      # every non-empty set of positions
         return _protocol(kinds, nd.draw(0, NT), None, None, nd.draw(0, NT), None, None)
     except Prune:
         return True
